@@ -27,6 +27,9 @@ ASSUMPTIONS = [
     'exactly 1-2^-53 landing on the surface by rounding is a 1e-16 event '
     'and is not forced)',
     'construction sets are in general position',
+    'for axis ratios above 1e3 (a rotated sheet of ratio 3e7 is generated) '
+    'only the sample()/contains() clauses are checked: the enclosure margin '
+    'is below the rounding of the inverse at condition number 1e15',
 ]
 REQUIRED_CLASSES = ['Union', 'Nautilus', 'Neural', 'Ellipsoid', 'Mixture',
                     'UnitCube', 'members>=2', 'periodic', 'networks',
@@ -95,8 +98,16 @@ def check_samples(res, tag, b, ns, unit, pool=None, cube_dims=None):
                 res.viol('sample-outside-cube', tag + '-cubedims', '')
 
 
+EXTREME = [False]
+
+
 def check_union_members(res, tag, u, unit, pts_all):
     """Every member encloses the rows it was built from."""
+    if EXTREME[0]:
+        # axis ratio 3e7: the enclosure margin (enlargement - 1) is below the
+        # rounding of the matrix inverse used for the rescale (cond 1e15);
+        # only the sample/contains clauses are meaningful there
+        return
     for i, (m, p) in enumerate(zip(u.bounds, u.points_bounds)):
         dc = getattr(m, 'dim_cube', None)
         if dc is not None and np.any(dc):
@@ -136,6 +147,8 @@ def run_case(r):
         return res
     b = built.bound
     pts = built.points
+    EXTREME[0] = r['pts'].get('ratio', 1.0) > 1e3
+    res.cls('extreme_ratio', EXTREME[0])
     res.cls(cls)
     touches = bool(np.any((pts == 0.0) | (pts >= bl.gens.ONE_M)) or
                    r['pts']['family'] in ('face',))
@@ -153,7 +166,7 @@ def run_case(r):
             sel = in_cube(pts[:, b.dim_cube])
         c = np.asarray(b.contains(pts[sel]))
         res.count('construction-points', int(np.sum(sel)))
-        if not np.all(c):
+        if not np.all(c) and not EXTREME[0]:
             res.viol('construction-point-outside', cls,
                      '%d of %d construction points outside (enlarge %g)' % (
                          int(np.sum(~c)), len(c), r['enlarge']))
@@ -250,6 +263,7 @@ def shard(ctx, tier, i, n):
             classes=['UnitCube', 'Ellipsoid', 'Ellipsoid', 'Mixture',
                      'Mixture', 'Union', 'Union', 'Union', 'Neural',
                      'Nautilus', 'Nautilus', 'Nautilus'],
-            pools=(0, 0, 0, 0, 2, 3), max_ops=5), run_case, p['examples'])
+            pools=(0, 0, 0, 0, 2, 3), max_ops=5, extreme_ratio=True),
+            run_case, p['examples'])
     finally:
         close_pools()
